@@ -31,6 +31,8 @@ class CursorSpec(Spec):
             return 'home'
         if (q in READS or q in DIRTY) and argi == 0:
             return 'away'
+        if q in ('tokio::fs::file::File::try_clone', 'std::fs::File::try_clone', 'tokio::fs::file::File::into_std', 'tokio::fs::file::File::from_std') and argi == 0:
+            return 'away'       # a duplicated handle shares the file offset: whatever is done through it moves this cursor too
         if q == SCAN and argi == 1:
             return 'scan'
         return None
